@@ -6,10 +6,12 @@ root = os.path.dirname(os.path.dirname(os.path.abspath(__file__)))
 print("| seed | class | change (author's summary) | first run | now caught by (quick) |")
 print("|---|---|---|---|---|")
 for d in sorted(glob.glob(os.path.join(root, "seeded", "C??-[%s]" % letters))):
+    if not os.path.exists(os.path.join(d, "meta.json")):
+        continue
     m = json.load(open(os.path.join(d, "meta.json")))
     name = os.path.basename(d)
     first = m.get("verified", {}).get("check_violations_reported")
-    first_s = "caught" if first else "**missed**"
+    first_s = "caught" if first and not str(m.get("verified", {}).get("as_built", "")).startswith("missed") else "**missed**"
     rc = m.get("recheck", {})
     keys = rc.get("finding_keys", [])
     short = []
